@@ -39,6 +39,9 @@ def run(ctx, drv):
                 runs.note_aborted(ctx, cfg, err)
             continue
         ctx.count("runs_" + cfg["name"])
+        if getattr(tr, "inits", 0) > 1:
+            # "calling run again continues from the current state": the initial state is built once, by the first step of the first call
+            ctx.fail("initialised-more-than-once", inp, getattr(tr, "inits", 0), "the initial population / swarm is built once", f"algorithms.{cfg['name']}.step")
         if seeded and any(t[0] == "real" for t in cfg["spec"].types):
             # the injected solutions were evaluated by the user before the run: while the initial population is set up, the problem
             # function must not be called again with exactly their variables (a real-valued variable makes coincidences impossible)
